@@ -2,11 +2,11 @@
 
 PROPS = {
     "C04": dict(
-        verus=[("waker", {})],
+        verus=[("waker", {}), ("bgq_run", {})],
         technique="Verus function contracts on the extracted real WakerTracker methods (step refinement) + inductive lemmas over histories",
         level_text="Deductive proof (Verus/z3) that the real handle_waiting_wakers / will_progress_on_drained_queue bodies refine an abstract step for all states and arguments, "
                    "that the stream is flushed before any held flush signal is released, and unbounded lemmas S1 (no early wake), L1 (bounded wake), S2 (no busy loop) over all step histories. "
-                   "Cross-thread happens-before and the run-loop wiring are assumed, not proved.",
+                   "The run loop (unit bgq_run) is proved to hand the tracker the result of a real drain and never to park while flush signals are held. Cross-thread happens-before is assumed, not proved.",
         level_note="Trusted: std mpsc try_recv (any result), tokio oneshot Sender drop = completion, derived PartialEq on DrainResult is structural, rewrite R1 (one tracing::debug! line dropped), "
                    "termination of the try_recv loop, Verus + z3.",
         explanation="WakerTracker step contract (real code, verbatim) + unbounded lemmas S1/S2/L1 over the abstract step",
@@ -16,7 +16,7 @@ PROPS = {
             "the capacity callback returns an upper bound of the entries queued when the signals were collected (run loop wiring, read not proved)",
             "termination of the `while let Ok(..) = try_recv()` loop (exec_allows_no_decreases_clause): not proved",
         ],
-        unreached=["Inner::flush_async (send, unpark, future)", "Receiver::run wiring of drain -> handle_waiting_wakers -> park"],
+        unreached=["Inner::flush_async (send, unpark, future)", "that a Drained status means the queue was observed empty SINCE the previous call (temporal; P1)"],
     ),
     "C02": dict(
         verus=[("emf_value", {})],
@@ -64,7 +64,7 @@ PROPS = {
         unreached=["Receiver::run", "BackgroundQueueBuilder::do_build (thread spawn)", "BoxEntrySink / BoxEntry forwarding (see C15)"],
     ),
     "C05": dict(
-        verus=[("bgq", {}, ["shut_down", "flush_stream", "drain_until_deadline", "consume", "drop", "forget"])],
+        verus=[("bgq", {}, ["shut_down", "flush_stream", "drain_until_deadline", "consume", "drop", "forget"]), ("bgq_run", {})],
         technique="Verus function contracts / anchored assertions on the extracted real Receiver::shut_down, flush_stream, BackgroundQueueJoinHandle::drop and forget",
         level_text="Deductive proof (Verus/z3) of the shutdown order: shut_down drains (every popped entry consumed), then flushes exactly once, then closes the stream with that flush as the last thing it saw; "
                    "dropping a live join handle stores the signal, then unparks, then joins; a forgotten handle does none of it. Thread termination and the forget path of run() are not reached.",
@@ -72,7 +72,7 @@ PROPS = {
                    "The clause 'after forget the thread exits once the last queue handle is dropped' is NOT decided here.",
         explanation="shutdown order of the background queue",
         assumptions=["Receiver::run returns self.shut_down() on the shutdown signal (read, not proved)", "Drop runs exactly once"],
-        unreached=["Receiver::run (forget path: Arc::get_mut)", "AttachHandle::drop (macro-generated)", "entries appended after shutdown are discarded"],
+        unreached=["whether Arc::get_mut can ever succeed after forget() (run keeps its own clone: read, not decided)", "AttachHandle::drop (macro-generated)", "entries appended after shutdown are discarded"],
     ),
     "C09": dict(
         verus=[("bgq", {}, ["push"])],
